@@ -38,7 +38,7 @@ def decide_oracles(cases):
                  {"store": "both_store", "select": "both_select", "update": "both_update"}[c["k"]])
         idx.append(i)
         exprs.append(e)
-    vals = gv.coq_eval(PROP + "_both", REQ_RUN, exprs, shard=60)
+    vals = gv.coq_eval(PROP + "_both", REQ_RUN, exprs, shard=40)
     for i, v in zip(idx, vals):
         c = cases[i]
         parts = [x.strip() for x in v.strip("()").split(",")]
@@ -71,7 +71,13 @@ def decide_oracles(cases):
 def run(tier, seed):
     chk = gv.Check(PROP, tier, seed, level="proof")
     proof = gv.proof_status(PROP, REQ_PROPS)
-    ncases = 1500 if tier == "quick" else 24000
+    # 900 cases on the pinned tree; x3 / x8 when /repo (an anchored file) moved (gv.scaled).
+    # GV_C13_CASES: debugging knob for self-tests under load only (the registered commands never set it);
+    # the generated cases of a smaller count are a prefix of those of a larger one.
+    ncases = gv.scaled(PROP, tier, 900, 24000, chk)
+    if gv.os.environ.get("GV_C13_CASES"):
+        ncases = int(gv.os.environ["GV_C13_CASES"])
+        chk.notes.append("GV_C13_CASES=%d overrides the case count" % ncases)
     ok, out, binp = gv.cargo_build("c13")
     if not ok:
         chk.violation("build", {"what": "the harness no longer builds against /repo's working tree", "log": out[-3000:],
@@ -96,7 +102,8 @@ def run(tier, seed):
         "insert_in_tx, remove_in_tx, commit_tx, rollback_tx) over 3-9 terms with delicate equalities, both store configurations, "
         "every accessor (len, is_empty, triples, subjects, predicates, objects, stats, triples_with_* for every term, find for the 8 "
         "shapes of two probe triples, contains, has_pending_ops, find_with_pending) after every operation; non-trivial = the sequence "
-        "contains a duplicate insert or a remove.  sparql: 0-10 triples (clean or dirty data profile), SELECT queries of the shapes "
+        "contains a duplicate insert or a remove.  sparql: 0-10 triples (clean or dirty data profile; three fixed cases with 1051 triples, "
+        "more than the scan chunk size), SELECT queries of the shapes "
         "bgp/join/filter/optional/union/distinct/order+limit/count and INSERT DATA / DELETE DATA; non-trivial = at least two triple "
         "patterns sharing a variable (updates: more than one triple or a triple already stored); distinct = distinct (kind,input)")
     chk.coverage["samples"] = [{"kind": c["k"], "input": c["in"][:300], "impl": c["impl"][:300], "oracle": c.get("oracle")} for c in cases[26:34]]
